@@ -109,6 +109,25 @@ theorem nbytes_format (H : Bytes → Nat) (P M : Nat) (data : List Bytes) (f : F
   unfold Filter.nBytes
   rw [hn, hd, Lemmas.writeVarInt_eq_compactSize]
 
+/-- the other serialisations: `PBytes = P ‖ data`, `NPBytes = CompactSize(N) ‖ P ‖ data`, `Bytes = data` -/
+theorem pbytes_npbytes_format (f : Filter) :
+    f.bytes = f.data ∧ f.pBytes = UInt8.ofNat f.p :: f.data ∧
+    f.npBytes = compactSize f.n ++ UInt8.ofNat f.p :: f.data := by
+  refine ⟨rfl, rfl, ?_⟩
+  unfold Filter.npBytes
+  rw [Lemmas.writeVarInt_eq_compactSize]
+
+/-- every value stored in a built filter lies in the BIP158 range `[0, F)`, `F = N·M mod 2^64 > 0` -/
+theorem stored_values_in_range (H : Bytes → Nat) (hH : ∀ d, H d < 2 ^ 64) (nm : Nat) (hn : nm < 2 ^ 64)
+    (h0 : 0 < nm) (data : List Bytes) : ∀ x ∈ Lemmas.vals H nm data, x < nm := by
+  intro x hx
+  rw [Lemmas.mem_vals, List.mem_map] at hx
+  obtain ⟨d, _, rfl⟩ := hx
+  rw [Lemmas.reduce_eq_mulhi _ _ (hH d) hn]
+  rcases Lemmas.mulhi_lt (H d) nm (hH d) with h | h
+  · exact h
+  · omega
+
 /-- `FromNBytes(P, M, NBytes(f)) = f` for every built filter. -/
 theorem nbytes_roundtrip (H : Bytes → Nat) (P M : Nat) (data : List Bytes) (f : Filter)
     (hb : build H P M data = .ok f) : fromNBytes P M f.nBytes = .ok f :=
